@@ -223,12 +223,17 @@ ScOk(r) ==
 OpValue(r) == IF OpGraphOk(r) THEN EdgeSem(r) ELSE [a \in 1 .. NAsg |-> IF kind = "tdd" THEN 0 ELSE NaN]
 
 OpObs(r, val) ==
-  IF Has(r, "res") THEN << O(Prop, "failed:" \o r.op, FALSE), O("C07", "conc.failed:" \o r.op, FALSE) >>
+  IF Has(r, "res") THEN << O(Prop, "failed:" \o r.op, FALSE), O("C07", "conc.failed:" \o r.op, FALSE),
+                            \* C14: a failure is the out-of-memory error (no panic), and never happens
+                            \* when the driver knows that everything the call needs was freed
+                            O("C14", "oom.reported:" \o r.op, r.res = [oom |-> TRUE]),
+                            O("C14", "retry.ok:" \o r.op, ~(Has(r, "must_ok") /\ r.must_ok)) >>
   ELSE << O("C03", "mv.graph:" \o kind, OpGraphOk(r) /\ GraphReduced(r.g)),
           O(Prop, "sem:" \o r.op, (\A i \in 1 .. Len(r.a) : r.a[i] \in Live) /\ Agrees(val, Expected(r))),
           O("C06", "cache:" \o r.op, (\A i \in 1 .. Len(r.a) : r.a[i] \in Live) /\ Agrees(val, Expected(r))),
           O(Prop, "scalar:" \o r.op, ScOk(r)),
           O(Prop, "eval", r.vt = val),
+          O("C14", "sem:" \o r.op, (\A i \in 1 .. Len(r.a) : r.a[i] \in Live) /\ Agrees(val, Expected(r))),
           O("C07", "conc.sem:" \o r.op, (\A i \in 1 .. Len(r.a) : r.a[i] \in Live) /\ Agrees(val, Expected(r))),
           O("C07", "conc.eval:" \o kind, r.vt = val),
           O("C07", "conc.canon:" \o kind, \A s \in Live : (Val(s) = val) <=> (hs[s].e = r.e)),
@@ -272,9 +277,11 @@ TrOp ==
 CheckObs(r) ==
   LET ok == OpGraphOk(r) /\ r.a \in Live
       val == IF ok THEN EdgeSem(r) ELSE <<>>
-  IN << O("C07", "conc.stable:" \o kind, ok /\ val = Val(r.a) /\ r.e = hs[r.a].e /\ r.vt = Val(r.a) /\ GraphReduced(r.g)),
+  IN << O("C14", "oom.stable:" \o kind, ok /\ val = Val(r.a) /\ r.e = hs[r.a].e /\ r.vt = Val(r.a) /\ GraphReduced(r.g)),
+        O("C07", "conc.stable:" \o kind, ok /\ val = Val(r.a) /\ r.e = hs[r.a].e /\ r.vt = Val(r.a) /\ GraphReduced(r.g)),
         O("C08", "mv.stable:" \o kind, ok /\ val = Val(r.a) /\ r.e = hs[r.a].e),
         O("C08", "mv.eval:" \o kind, ok => r.vt = Val(r.a)),
+        O(Prop, "eval.reordered", ok => r.vt = Val(r.a)),
         O("C08", "mv.wellformed:" \o kind, ok /\ GraphReduced(r.g)),
         O("C08", "mv.nc:" \o kind, r.nc = Len(r.g) + Cardinality(
               {c \in UNION {{r.g[i][2 + k] : k \in 1 .. Arity} : i \in 1 .. Len(r.g)} \cup {r.e} : "t" \in DOMAIN c})) >>
@@ -316,7 +323,10 @@ TrObs ==
 GcObs(r) ==
   LET inner == UNION {hs[s].nodes : s \in Live}
       terms == UNION {{Val(s)[x] : x \in 1 .. NAsg} : s \in Live}
-  IN << O("C07", "conc.gc.inner:" \o kind, Has(r, "ninner") => r.ninner = Cardinality(inner)),
+  IN << O("C14", "oom.gc.inner:" \o kind, Has(r, "ninner") => r.ninner = Cardinality(inner)),
+        O("C14", "oom.gc.terminals:" \o kind,
+            (Has(r, "nterm") /\ kind = "mtbdd") => r.nterm = Cardinality(terms)),
+        O("C07", "conc.gc.inner:" \o kind, Has(r, "ninner") => r.ninner = Cardinality(inner)),
         O("C07", "conc.gc.terminals:" \o kind,
             (Has(r, "nterm") /\ kind = "mtbdd") => r.nterm = Cardinality(terms)),
         O("C05", "mv.gc.inner:" \o kind, Has(r, "ninner") => r.ninner = Cardinality(inner)),
